@@ -264,6 +264,9 @@ pub enum CallSpec {
 #[derive(Serialize, Deserialize, Clone, Debug, PartialEq)]
 #[serde(tag = "kind")]
 pub enum FaultSpec {
+    /// the k-th (1-based, counted over the scenario) validity query answers `false` whatever the
+    /// state: a callback whose answer depends on the call history (deterministic, not pure)
+    ValidityFalseAt { at_call: u64 },
     /// the k-th (1-based, counted over the scenario) `sample_uniform` call returns Err
     UniformSamplerErr { at_call: u64 },
     /// the k-th `sample_goal` call returns Err
